@@ -537,10 +537,10 @@ func c15SeqProp(t *testing.T) func(c c15SeqCase) common.Result {
 func c15GenSeqCase(rt *rapid.T) c15SeqCase {
 	c := c15SeqCase{Batch: rapid.IntRange(1, 4).Draw(rt, "batch"), Pending: rapid.Bool().Draw(rt, "pending")}
 	clients := rapid.IntRange(1, c15MaxClientID).Draw(rt, "clients")
-	clientLike := rapid.IntRange(0, 2).Draw(rt, "style") == 0 // clients number their commands 1,2,3,... and sometimes resend
+	clientLike := rapid.Bool().Draw(rt, "style") // clients number their commands 1,2,3,... and sometimes resend
 	next := make([]int, clients+1)
-	kinds := []string{"add", "add", "add", "add", "add", "add", "get", "get", "get", "prop", "prop", "pgot"}
-	n := rapid.IntRange(0, 40).Draw(rt, "n")
+	kinds := []string{"add", "add", "add", "add", "add", "add", "add", "add", "add", "get", "get", "get", "get", "prop", "prop", "pgot"}
+	n := rapid.IntRange(0, 60).Draw(rt, "n")
 	for i := 0; i < n; i++ {
 		op := c15Op{K: rapid.SampledFrom(kinds).Draw(rt, "kind")}
 		switch op.K {
